@@ -212,6 +212,9 @@ func (p *Core) nextHonest(ps *PktState, stale bool) []sim.Op {
 		return append(ops, sim.Op{K: "recv", T: ps.Tag, M: h})
 	}
 	if ps.AsyncOpen {
+		if ps.X != nil && ps.X.Fwd != nil {
+			return nil // C43 hook: the forward middleware writes this acknowledgement itself when the next leg terminates
+		}
 		return []sim.Op{{K: "wack", T: ps.Tag, S: []string{"ok", "fail"}[w.Intn(2)], X: 1}}
 	}
 	if ps.HasAck {
